@@ -121,6 +121,7 @@ type VC struct {
 	compType   map[string]types.Type // component -> Go type of the stored value
 	epochTop   map[int]string        // epoch -> allocTop when it started
 	siteHits   map[*SiteSpec]int
+	defined    map[string]bool // names introduced by define-fun (macros, not constants)
 }
 
 type loopInfo struct {
@@ -143,7 +144,7 @@ func newVC(w *World, cs *Contracts, ms *ModSets, fn *ssa.Function, spec *FuncSpe
 		notes: map[string]bool{}, unsupp: map[string]bool{}, assumedUse: map[string]bool{},
 		callOrd: map[string]int{}, panicOrd: map[string]int{}, sumDefs: map[string]bool{},
 		closures: map[ssa.Value]*ssa.MakeClosure{}, edgeReach: map[[2]int]string{},
-		compType: map[string]types.Type{}, epochTop: map[int]string{}, siteHits: map[*SiteSpec]int{}}
+		compType: map[string]types.Type{}, epochTop: map[int]string{}, siteHits: map[*SiteSpec]int{}, defined: map[string]bool{}}
 	vc.prelude()
 	return vc
 }
@@ -220,6 +221,7 @@ func (vc *VC) define(hint, sort, term string) string {
 	n := vc.fresh(hint)
 	vc.emit(fmt.Sprintf("(define-fun %s () %s %s)", n, sort, term))
 	vc.decl[n] = sort
+	vc.defined[n] = true
 	return n
 }
 
@@ -421,6 +423,59 @@ func (vc *VC) closed(name, comp, sort, top string) {
 		vc.emit(fmt.Sprintf("(assert (forall ((o Int) (k %s)) (! (=> (<= o %s) (<= %s %s)) :pattern ((select (select %s o) k)))))", k, top, wrap(sx("select", sx("select", name, "o"), "k")), top, name))
 	case strings.HasPrefix(comp, "E_"):
 		vc.emit(fmt.Sprintf("(assert (forall ((o Int) (i Int)) (! (=> (<= o %s) (<= %s %s)) :pattern ((select (select %s o) i)))))", top, wrap(sx("select", sx("select", name, "o"), "i")), top, name))
+	}
+}
+
+// closeAll states, for every reference-valued component known so far, that in state st objects allocated up to
+// now only point to objects allocated up to now. Used after calls: objects the callee allocated carry values in
+// components outside its assigns clause (their initial field values); those values cannot refer to objects
+// that do not exist yet.
+func (vc *VC) closeAll(st *State) {
+	var comps []string
+	for k := range vc.decl {
+		if strings.HasPrefix(k, "§") {
+			comps = append(comps, strings.TrimPrefix(k, "§"))
+		}
+	}
+	sort.Strings(comps)
+	top := st.allocTop
+	for _, comp := range comps {
+		ty := vc.compType[comp]
+		if ty == nil {
+			continue
+		}
+		_, isSlice := ty.Underlying().(*types.Slice)
+		if !isRefType(ty) && !isSlice {
+			continue
+		}
+		srt := vc.decl["§"+comp]
+		name := vc.heapGet(st, comp, srt)
+		if _, isConst := vc.decl[name]; !isConst || vc.defined[name] {
+			// patterns need a plain constant: name the current version
+			alias := vc.declare(comp+"_now", srt)
+			vc.assert(sx("=", alias, name))
+			name = alias
+		}
+		wrap := func(x string) string {
+			if isSlice {
+				return sx("sbase", x)
+			}
+			return x
+		}
+		var q string
+		switch {
+		case strings.HasPrefix(comp, "F_"):
+			q = fmt.Sprintf("(forall ((o Int)) (! (=> (<= o %s) (<= %s %s)) :pattern ((select %s o))))", top, wrap(sx("select", name, "o")), top, name)
+		case strings.HasPrefix(comp, "Mval_"):
+			inner := strings.TrimSuffix(strings.TrimPrefix(srt, "(Array Int "), ")")
+			k := strings.Fields(strings.TrimPrefix(inner, "(Array "))[0]
+			q = fmt.Sprintf("(forall ((o Int) (k %s)) (! (=> (<= o %s) (<= %s %s)) :pattern ((select (select %s o) k))))", k, top, wrap(sx("select", sx("select", name, "o"), "k")), top, name)
+		case strings.HasPrefix(comp, "E_"):
+			q = fmt.Sprintf("(forall ((o Int) (i Int)) (! (=> (<= o %s) (<= %s %s)) :pattern ((select (select %s o) i))))", top, wrap(sx("select", sx("select", name, "o"), "i")), top, name)
+		default:
+			continue
+		}
+		vc.assume(st, q)
 	}
 }
 
